@@ -213,9 +213,18 @@ def gen_spec(rng, fixture_docx=None, max_att=3):
         # mail clients label everything alike: one declared type for attachments of different file types
         shared = pick(rng, ["application/octet-stream", "text/plain", atts[0][1]])
         atts = [(f"{i}-{fn}", shared, data) for i, (fn, _, data) in enumerate(atts)]
+    to_l = [rand_addr(rng, fam) for _ in range(rng.randrange(1, 4))]
+    cc_l = [rand_addr(rng, fam) for _ in range(rng.randrange(0, 3))]
+    for lst in (to_l, cc_l):
+        if lst and rng.random() < 0.2:
+            # the same mailbox listed again under another display name, or an address differing only in the case of its
+            # local part (RFC 5321: case-sensitive): every entry is a recipient of its own
+            n0, a0 = pick(rng, lst)
+            other = pick(rng, ["Support Desk", "Billing", "Office of J. Mueller", "", n0 + " (work)"])
+            lst.insert(rng.randrange(len(lst) + 1), (other, a0) if rng.random() < 0.6 else (other, a0[:1].upper() + a0[1:]))
     return {
-        "subject": subject, "from": rand_addr(rng, fam), "to": [rand_addr(rng, fam) for _ in range(rng.randrange(1, 4))],
-        "cc": [rand_addr(rng, fam) for _ in range(rng.randrange(0, 3))], "date": date,
+        "subject": subject, "from": rand_addr(rng, fam), "to": to_l,
+        "cc": cc_l, "date": date,
         "msgid": f"<{rng.randrange(10**9)}.{rng.randrange(10**6)}@{pick(rng, DOMAINS)}>",
         "plain": plain, "html": html, "layout": layout, "attachments": atts, "charset": cs, "family": fam,
         "cte": pick(rng, ["base64", "quoted-printable", "8bit", None]),
@@ -632,3 +641,28 @@ def gen_msg_spec(rng):
                    "; ".join(sp["display_to"]) if sp["display_to"] else None)
     sp["msg_html"] = bool(use_html)
     return sp, raw
+
+
+# ------------------------------------------------------------------------------------------ header NAME spellings
+def recase_header_names(raw: bytes, rng) -> bytes:
+    """Field names are case-insensitive (RFC 5322): re-spell the names of the top-level header block the way other
+    writers do (Message-Id, CC, SUBJECT, date, Reply-to, content-type, ...).  Values and continuation lines untouched."""
+    head, sep, rest = raw.partition(b"\n\n")
+    style = pick(rng, ["lower", "upper", "apple", "mixed"])
+    out = []
+    for line in head.split(b"\n"):
+        if line[:1] in (b" ", b"\t") or b":" not in line:
+            out.append(line)
+            continue
+        name, colon, val = line.partition(b":")
+        if style == "lower":
+            name = name.lower()
+        elif style == "upper":
+            name = name.upper()
+        elif style == "apple":
+            name = {b"message-id": b"Message-Id", b"cc": b"CC", b"mime-version": b"Mime-Version", b"reply-to": b"Reply-to",
+                    b"in-reply-to": b"In-reply-to", b"bcc": b"BCC"}.get(name.lower(), name)
+        elif rng.random() < 0.5:
+            name = b"".join(bytes([c]).upper() if rng.random() < 0.5 else bytes([c]).lower() for c in name)
+        out.append(name + colon + val)
+    return b"\n".join(out) + sep + rest
